@@ -47,6 +47,22 @@ def Fr(x):
 def layouts(Ls):
     return Ls
 
+def signed_states(r, y, ncell, ns):
+    """un-clamped states (Rosenbrock stage vectors, user input): per cell, some concentrations slightly or wholly
+    negative, some exactly zero -- so reaction rates are negative in some cells and zero in their neighbours"""
+    y = list(y)
+    for c in range(ncell):
+        mode = r.below(4)
+        if mode == 0: continue
+        for i in range(ns):
+            z = r.below(10)
+            if mode == 1 and z < 5: y[c * ns + i] = 0.0
+            elif mode == 2 and z < 5: y[c * ns + i] = -abs(y[c * ns + i]) if y[c * ns + i] else -1.0
+            elif mode == 3:
+                if z < 3: y[c * ns + i] = 0.0
+                elif z < 6: y[c * ns + i] = -abs(y[c * ns + i]) if y[c * ns + i] else -0.5
+    return y
+
 def gen_forcing(r, Ls, n):
     cs = []
     for _ in range(n):
@@ -66,6 +82,8 @@ def gen_forcing(r, Ls, n):
             q = r.below(len(rx)); every = r.chance(0.6)
             for c in range(ncell):
                 if every or r.chance(0.5): k[c * len(rx) + q] = 0.0
+        if r.chance(0.3):
+            y = signed_states(r, y, ncell, ns)
         line = " ".join(["forcing", str(L), str(ncell), str(ns)] + [str(x) for x in perm] + G.mech_tokens(rx) + [hexd(v) for v in k + y + f0])
         meta = dict(L=L, ns=ns, ncell=ncell, perm=perm, rx=rx, k=[F(v) for v in k], y=[F(v) for v in y], f0=[F(v) for v in f0])
         tags = ["L=%d" % L]
@@ -93,6 +111,8 @@ def gen_jacobian(r, Ls, n):
             q = r.below(len(rx)); every = r.chance(0.6)
             for c in range(ncell):
                 if every or r.chance(0.5): k[c * len(rx) + q] = 0.0
+        if r.chance(0.3):
+            y = signed_states(r, y, ncell, ns)
         rest = [str(x) for x in perm] + G.mech_tokens(rx) + [hexd(v) for v in k + y]
         line = " ".join(["jacobian", str(ncell), str(ns), str(csc), str(L)] + rest)
         meta = dict(L=L, csc=csc, ns=ns, ncell=ncell, perm=perm, rx=rx, k=[F(v) for v in k], y=[F(v) for v in y])
@@ -1279,6 +1299,10 @@ def g_c11(r, tier, env, Ls):
                 if r.chance(0.3):   # a solve that ends badly (NaN rate constant)
                     ops.insert(len(ops) - 1, ["setk", "0"] + [hexd(float("nan"))] * (p["ncell"] * len(p["rx"])))
                 hist += ops
+                if r.chance(0.3):   # ... and the State is then advanced by the other solver object (another parameter set)
+                    hist += problem_ops(r, p, 0)[:-1] + [["solvex", "0", hexd(r.logu(1e-2, 1e2))]]
+        if r.chance(0.35) and final_ops and final_ops[-1][0] == "solve":
+            final_ops = final_ops[:-1] + [["solvex"] + final_ops[-1][1:]]     # the last solve uses the other solver object
         hist.append(["settol", "0"] + [hexd(1e-3)] * p["ns"] + [hexd(1e-6)])
         hist += final_ops
         fresh = [["new", "0"], ["settol", "0"] + [hexd(1e-3)] * p["ns"] + [hexd(1e-6)]] + final_ops
@@ -1327,6 +1351,8 @@ def g_c13(r, tier, env, Ls):
         kc = [G.gen_value(r, "rate") for _ in range(nrx)]
         yc = [G.gen_value(r, "conc") for _ in range(ns)]
         fc = [G.gen_value(r, "any") for _ in range(ns)]
+        signed = r.chance(0.4)
+        if signed: yc = signed_states(r, yc, 1, ns) if r.chance(0.5) else [-abs(v) if r.chance(0.5) else v for v in yc]
         variants = []
         for _ in range(3):
             ncell = r.rng(1, 3 * max(L, 1) + 1); pos = r.below(ncell)
@@ -1335,8 +1361,10 @@ def g_c13(r, tier, env, Ls):
                 if c == pos:
                     k += kc; y += yc; f0 += fc
                 else:
-                    k += [G.gen_value(r, "rate") for _ in range(nrx)]
-                    y += [G.gen_value(r, "conc") if r.chance(0.9) else float("nan") for _ in range(ns)]
+                    k += [G.gen_value(r, "rate") if not (signed and r.chance(0.4)) else 0.0 for _ in range(nrx)]
+                    yo = [G.gen_value(r, "conc") if r.chance(0.9) else float("nan") for _ in range(ns)]
+                    if signed: yo = [0.0 if r.chance(0.5) else (-abs(v) if r.chance(0.3) else v) for v in yo]
+                    y += yo
                     f0 += [G.gen_value(r, "any") for _ in range(ns)]
             variants.append((ncell, pos, k, y, f0))
         which = r.below(2)
